@@ -182,6 +182,13 @@ def _reference(case):
                 d = posixpath.join(r, *p.split('.')) if r else '/'.join(p.split('.'))
                 if d in dirs and d not in cands:
                     cands.append(d)
+            if not cands:
+                # -s names a plain module (a .py file), not a package: the runner may refuse it (upstream: AttributeError
+                # on __path__) or search nothing -- but nothing besides that module lies inside the selection
+                mods = [(posixpath.join(r, *p.split('.')) if r else '/'.join(p.split('.'))) + '.py' for r in sys_roots]
+                mods = [m for m in mods if m in set(case["files"])]
+                if len(mods) == 1 and len(cfg["packages"]) == 1:
+                    return {"expected": [], "unclear": [], "roots": [], "module_package": mods[0], "accepted": [], "names": {}}
             if len(cands) != 1:
                 raise Skip("package %r resolves to %r" % (p, cands))
             below = p.split('.')
@@ -383,8 +390,17 @@ def _check(case, stats=None):
             l1 = listing(case["walk_seeds"][0])
             l2 = listing(case["walk_seeds"][1])
         except Exception as e:
+            if ref.get("module_package") and isinstance(e, AttributeError):
+                return problems          # refused: nothing searched, nothing imported
             problems.append(("discovery:find_test_files:exception:%s" % type(e).__name__,
                              "find_test_files raised %r" % (e,)))
+            return problems
+        if ref.get("module_package"):
+            extra = sorted(set(l0) - {ref["module_package"]})
+            if extra:
+                problems.append(("discovery:package-names-a-module:searches-outside-the-selection",
+                                 "-s names the module %r; the files %r, which lie outside it, are searched as test modules"
+                                 % (ref["module_package"], extra)))
             return problems
 
         def clear(fs):
@@ -586,8 +602,24 @@ CAT_FILTERS = (
 )
 
 
+def _special(seed):
+    """search paths that lie below another search path THROUGH a directory the walk prunes (named in --ignore_dir, or not an
+    identifier): the walk from the outer path never gets there, only the inner path's own walk finds these modules"""
+    dirs, files = _catalogue_tree()
+    for argv in ([['--path', '.'], ['--path', 'pkga/build'], ['--ignore_dir', 'build']],
+                 [['--test-path', 'pkga'], ['--test-path', 'pkga/build'], ['--ignore_dir', 'build']],
+                 [['--path', 'pkga/build'], ['--path', '.'], ['--ignore_dir', 'build'], ['--ignore_dir', 'empty']],
+                 [['--path', '.'], ['--path', 'my-dir/ok']],
+                 [['--path', '.'], ['--path', 'pkga/sub'], ['--ignore_dir', 'sub']],
+                 # -s naming a plain MODULE instead of a package: whatever the runner does, nothing outside it is imported
+                 [['--path', '.'], ['-s', 'pkga.sub.tests.test_one']],
+                 [['--path', '.'], ['-s', 'pkga.mod']]):
+        yield {"dirs": dirs, "files": list(files), "argv": [list(g) for g in argv], "walk_seeds": [seed, seed + 1]}
+
+
 def _catalogue(seed):
     dirs, files = _catalogue_tree()
+    yield from _special(seed)
     i = 0
     for ps in CAT_PATHSETS:
         for pat in CAT_PATTERNS:
